@@ -168,3 +168,27 @@ contract(
     note='fixed channels 4 (ATT) and 6 (SMP) registered, possibly with a None handler (AssertionError); what the consumers raise is theirs '
          '(Device.on_gatt_pdu, Manager.on_smp_pdu, on_control_frame, channel on_pdu: own contracts)',
 )
+
+
+# ---------------------------------------------------------------------------
+# LeCreditBasedChannel.on_pdu for ANY K-frame.  C07 proves reassembly + credit ledger for SDU lengths >= 1 (its statement's
+# quantifier) and excludes a zero SDU-length header by precondition.  C17's input is unconstrained: the same contract
+# (same model, ghost, postcondition: reassembly is the step function of the specification and the state stays framed)
+# WITHOUT that precondition.  S: `wf-short` / `wf-known` = in_sdu is a proper prefix of an SDU on every exit.
+# ---------------------------------------------------------------------------
+from contracts import c07_coc as _c07  # noqa: E402
+
+contract(
+    'bumble.l2cap:LeCreditBasedChannel.on_pdu',
+    key='bumble.l2cap:LeCreditBasedChannel.on_pdu@any-frame',
+    prop=PROP,
+    params=dict(self=_c07.CHAN, pdu=Bytes),
+    ghost=_c07.RX_GHOST,
+    requires=lambda self, pdu: [self.sink is not None, _c07.wf_rx(self), _c07.wf_ledger(self), self.peer_max_credits <= 65535],
+    ensures=_c07.on_pdu_post,
+    ensures_names=_c07.ON_PDU_NAMES,
+    modifies=['self.in_sdu', 'self.in_sdu_length', 'self.peer_credits', 'ghost.sunk', 'ghost.nsdu', 'ghost.last', 'ghost.cr_frames', 'ghost.cr_total', 'ghost.cr_cid',
+              'ghost.cr_last'],
+    inline=['L2CAP_Control_Frame.*', 'LeCreditBasedChannel.send_control_frame', 'L2CAP_LE_Flow_Control_Credit.*'],
+    note='C07 contract without the "SDU length >= 1" precondition (zero-length SDU header included)',
+)
